@@ -29,6 +29,7 @@ def REQUIRED(tier):  # noqa: N802
     return {"instances_judged": 1000, "with_duplicates": 300,
             "big_instances_judged": 20, "swap_long_permutations": 40,
             "sequences_with_identical_object_repeated": 100,
+            "sequences_with_a_None_element": 100,
             "dist[absabs+1]": 50,
             "ties_inside_horizon": 300, "beyond_horizon_entries": 1000,
             "swap_pairs": 518400 + 14400 + 576 + 36 + 4 + 1
@@ -216,7 +217,8 @@ def gen_sequence(rng):
             i, j = sorted(int(v) for v in rng.choice(k, 2, replace=False))
             same.append([i, j])
     return {"dist": dk, "vals": vals, "power": power, "horizon": horizon,
-            "same": same}
+            "same": same,
+            "none_at": int(rng.integers(k)) if rng.integers(4) == 0 else None}
 
 
 def judge_instance(ctx, case):
@@ -230,10 +232,25 @@ def judge_instance(ctx, case):
         objs[j] = objs[i]            # identical object at two positions
     if case.get("same"):
         ctx.count("sequences_with_identical_object_repeated")
+    # the signature allows None as an element: an object like any other for
+    # functions that accept it (here: it stands for the value / position
+    # given in the case)
+    none_at = case.get("none_at")
+    none_obj = None
+    if none_at is not None and none_at < len(objs):
+        none_obj = objs[none_at]
+        objs = [None if k == none_at else o for k, o in enumerate(objs)]
+        ctx.count("sequences_with_a_None_element")
+
+        def unwrap(o, _n=none_obj):
+            return _n if o is None else o
+    else:
+        def unwrap(o):
+            return o
     ctx.case()
     inst = Instance.from_sequence_and_distance(
-        list(objs), lambda a, b: df(a[1], b[1]), power, horizon, ("pos",),
-        lambda o: str(o[0]),
+        list(objs), lambda a, b: df(unwrap(a)[1], unwrap(b)[1]), power,
+        horizon, ("pos",), lambda o: str(unwrap(o)[0]),
         name=("seq" if len(objs) % 2 else None))
     ctx.count("instances_judged")
     ctx.count(f"dist[{dk}]")
@@ -241,7 +258,7 @@ def judge_instance(ctx, case):
     reps = []
     rep_of = {}
     rep_pairs = []      # (tag of the object, index of its representative)
-    for pos, v in objs:
+    for pos, v in (unwrap(o) for o in objs):
         for ri, (rp, rv) in enumerate(reps):
             if df(v, rv) == 0:
                 rep_of[pos] = ri
